@@ -135,7 +135,8 @@ fn check_prefixes<TC: Configuration>(l: &mut Local, a: &NodeLabel, lens: &[u32],
 pub fn run(ctx: &Ctx) -> i32 {
     let mon = Mon::new();
     let max_len: u32 = match ctx.mode.as_deref() {
-        Some("small") => 6, // Miri / dev-profile sub-run
+        Some("small") => 6, // dev-profile sub-run
+        Some("miri") => 3,  // Miri sub-run
         _ => 10,
     };
     // ---- exhaustive: all pairs of canonical labels of length 0..max_len
@@ -181,7 +182,7 @@ pub fn run(ctx: &Ctx) -> i32 {
         }
         l.count("exhaustive_labels", n_all / 64);
         if cc.idx == 0 {
-            l.sample(json!({"family": "exhaustive", "labels": n_all, "pairs": n_all * n_all, "example": [label_str(&all[5]), label_str(&all[70])]}));
+            l.sample(json!({"family": "exhaustive", "labels": n_all, "pairs": n_all * n_all, "example": [label_str(&all[5.min(all.len() - 1)]), label_str(&all[70.min(all.len() - 1)])]}));
         }
     });
     mon.with(|l| l.count("exhaustive_pairs", n_all * n_all));
@@ -261,7 +262,11 @@ pub fn run(ctx: &Ctx) -> i32 {
     // ---- set operations through the hook: binary-searchable vs unsorted representation
     let set_cases = if ctx.mode.is_some() { 4 } else { 16 };
     par_cases(ctx, &mon, "sets", set_cases, |cc, rng, l| {
-        let max_bits: u32 = if ctx.mode.is_some() { 3 } else { 4 };
+        let max_bits: u32 = match ctx.mode.as_deref() {
+            Some("miri") => 2,
+            Some(_) => 3,
+            None => 4,
+        };
         // all multisets of <= 4 labels of one length <= 4 bits, split over the cases
         let mut n = 0u64;
         for len in 1..=max_bits {
@@ -336,8 +341,8 @@ pub fn run(ctx: &Ctx) -> i32 {
         "exploration",
         "EXHAUSTIVE: all pairs of canonical labels of length 0..10 bits (2047^2 pairs) x {is_prefix_of, get_prefix_ordering, get_longest_common_prefix, cmp, eq} x both configurations against a Vec<bool> model, plus garbage-beyond-length variants for the operations documented to ignore it, plus get_prefix for every length; all lengths 8k-1, 8k, 8k+1, 0,1,2,255,256 x adversarial patterns x partners (self, one bit flipped at each boundary, prefix/extension of every boundary length); set operations through the verif_hooks wrappers: ALL multisets of <= 4 equal-length labels of <= 4 bits, binary-searchable vs forced-unsorted representation, every prefix of the common prefix as partition point, contains_prefix for every prefix, random 256-bit sets; tree shape of sorted vs mixed-length (unsorted path) insertions against the reference trie. distinct: enumerated tuples are distinct by construction",
     )
-    .need("exhaustive_pairs", if max_len == 10 { 4_000_000 } else { 10_000 })
-    .need("small_multisets", if ctx.mode.is_some() { 100 } else { 4000 });
+    .need("exhaustive_pairs", match max_len { 10 => 4_000_000, 6 => 10_000, _ => 200 })
+    .need("small_multisets", match ctx.mode.as_deref() { Some("miri") => 50, Some(_) => 100, None => 4000 });
     let mut spec = spec;
     spec.exhaustive = true;
     if ctx.mode.is_none() {
